@@ -27,7 +27,7 @@ def main(ddir, dfile, basis_json, jobs_json, seed):
                     nll, dl, params = fs.single_function(list(j["labels"]), basis, lik, return_params=True, log_opt=j.get("log_opt", False))
                     rec.update(nll=float(nll), DL=float(dl), params=[float(p) for p in np.atleast_1d(params)])
                 else:
-                    nll, dl, labels, params = fs.fit_from_string(j["formula"], basis, lik, return_params=True)
+                    nll, dl, labels, params = fs.fit_from_string(j["formula"], basis, lik, return_params=True, log_opt=j.get("log_opt", False))
                     rec.update(nll=float(nll), DL=float(dl), labels=[str(l) for l in labels], params=[float(p) for p in np.atleast_1d(params)])
         except Exception as e:
             rec["error"] = "%s: %s" % (type(e).__name__, e)
